@@ -430,12 +430,7 @@ Proof.
            rewrite Er in A. unfold pendingb, inactiveb in A. rewrite Hrec in A. simpl in A.
            split; [|split; [|apply rargs_notlate; exact Hl1]].
            ++ eapply dsI_cast; [| | |].
-              4:{ assert (Q : g_arr (mkS (map (ds_update m e) (s_ds s)) (s_wtd s) (s_wf s) (s_closing s) rest
-                        (if wr then R_UpdIsSet else R_Op) (s_wpc s) (s_rec s) (s_paused s) (s_acc s) (s_ref s) (s_nextw s)
-                        (s_now s) (s_session s) e (s_crash s) (s_warn s)
-                        match m with Some x => g_arr s ++ [(s_session s, x)] | None => g_arr s end (g_stale s))
-                        = match m with Some x => g_arr s ++ [(s_session s, x)] | None => g_arr s end) by reflexivity.
-                  apply dsI_update. exact A. }
+              4:{ apply dsI_update. exact A. }
               ** unfold pendingb. rewrite (rpend_notlate _ _ Hl1). reflexivity.
               ** rewrite (inactive_notlate _ _ _ Hl1), Hrec. reflexivity.
               ** destruct wr; reflexivity.
